@@ -23,6 +23,13 @@ Dicts and sets are also instantiated with awkward string keys ("wstr": _type, __
 (int lists) and to dict.map / set.map / dict.for_each / set.for_each (SyltShare) also come RE-ENTRANT: they call the library on
 the container being traversed and on other containers; the model gives the expected value.
 
+Round 3, two more axes of the SyltStd universe. (1) NUMERIC-LOOKING STRING KEYS: dicts and sets over "nstr" (24 strings that read
+as numbers: "1" "01" "1.0" " 1" "1 " "1e0" "0x1" "+1" / "10" "1e1" "1E1" "0xA" "0xa" "10.0" / "0x10" "16" / "-1" "-1.0" / "0" "-0"
+"0.0" / "0.5" ".5" / "1a"; <= 1 key, all 24 asked after every transition) and "nstr2" (six of them, <= 2 keys per dict, <= 3 per
+set), beside float / int (0, -1) / "" keys: a string key is the key its text says. (2) ELEMENTS AND VALUES A RUNTIME MIGHT TAKE FOR
+"NOTHING": lists of bool, float, "" / "0", unit, lists, Maybe (None as an element), 0 / -1, and dicts with such values, through every
+operation (get / last / pop / find / contains / dict.get / contains_key answer Just false, Just None, Just [] ... like Just 1).
+
 div and floor are read with floor semantics on all operands (div(a, b) = floor(a / b), a in -7..7, b in -3..3 \ {0}).
 
 A transition whose history already left the implementation in a wrong state is not judged (the earlier operation
@@ -219,15 +226,92 @@ def short(case):
             "expected_state_observation": ["%s = %s" % (asktext(a), show(a["res"])) for a in case["obs"]]}
 
 
+FALSY_LIST = ("bool", "float", "estr", "unit", "lst", "mayb", "zint")
+FALSY_DICT = ("vbool", "vunit", "vlst", "vmayb", "float", "estr", "zint")
+NUMSTR = ("nstr", "nstr2")
+
+
+def is_zero(v):
+    """the value of its type a runtime might take for 'nothing' (guards and negative controls only)"""
+    k = v.get("k")
+    return ((k == "bool" and v["v"] is False) or (k == "int" and v["v"] == 0) or (k == "float" and v["n"] == 0)
+            or (k == "str" and v["v"] == "") or (k in ("tuple", "list") and not v["es"]) or (k == "variant" and v["tag"] == "None"))
+
+
+def number_of(text):
+    """the number a string key reads as, or None (guards only: which keys of the universe are numerically equal)"""
+    t = text.strip()
+    try:
+        return float(int(t, 16)) if t.lower().lstrip("+-").startswith("0x") else float(t)
+    except ValueError:
+        return None
+
+
+def held_keys(case):
+    """keys / elements the container holds after the transition, read off the expected observation"""
+    return [a["op"]["a"][0]["v"] for a in case["obs"] if a["op"]["op"] in ("get", "contains")
+            and (a["res"].get("tag") == "Just" or a["res"].get("v") is True)]
+
+
+def round3_guards(cases):
+    """vacuity: the two round-3 axes are really in the universe"""
+    num = [c for c in cases if c["ty"] in NUMSTR and c["kind"] in ("dict", "set")]
+    if len(num) < 5000 or len({c["kind"] + c["op"]["op"] + c["arg"] for c in num}) < 14:
+        vlib.tool_error("vacuity: only %d transitions with numeric-looking string keys" % len(num))
+    twin_lookup = twin_write = both_held = 0
+    for c in num:
+        held = held_keys(c)
+        nums = [number_of(k) for k in held]
+        if len(held) >= 2 and len(set(nums)) < len(nums):
+            both_held += 1         # two textually different keys that denote the same number are in the container together
+        if c["arg"] == "absent" and c["op"]["a"]:
+            k = c["op"]["a"][0]["v"]
+            twins = [h for h in held if h != k and number_of(h) is not None and number_of(h) == number_of(k)]
+            if twins and c["op"]["op"] in ("get", "contains", "contains_key"):
+                twin_lookup += 1   # an absent key is looked up while a numerically equal key is present
+            if twins and c["op"]["op"] == "remove":
+                twin_write += 1    # an absent key is removed while a numerically equal key is present
+    if twin_lookup < 200 or twin_write < 100 or both_held < 200:
+        vlib.tool_error("vacuity: numerically equal string keys meet in only %d lookups, %d removes, %d states" % (twin_lookup, twin_write, both_held))
+    n = {"twin_lookup": twin_lookup, "twin_remove": twin_write, "twins_held_together": both_held, "transitions": len(num)}
+    for t in FALSY_LIST:
+        for op in ("get", "last", "pop", "find"):
+            hit = [c for c in cases if c["kind"] == "list" and c["ty"] == t and c["op"]["op"] == op
+                   and c["res"].get("tag") == "Just" and is_zero(c["res"]["val"])]
+            if not hit:
+                vlib.tool_error("vacuity: list.%s never returns Just <zero value> for element type %s" % (op, t))
+            n["list.%s -> Just zero" % op] = n.get("list.%s -> Just zero" % op, 0) + len(hit)
+        if not [c for c in cases if c["kind"] == "list" and c["ty"] == t and c["op"]["op"] == "contains" and is_zero(c["op"]["a"][0]) and c["res"]["v"]]:
+            vlib.tool_error("vacuity: list.contains never finds the zero value of element type %s" % t)
+    for t in FALSY_DICT:
+        got = [c for c in cases if c["kind"] == "dict" and c["ty"] == t and c["op"]["op"] == "get"
+               and c["res"].get("tag") == "Just" and is_zero(c["res"]["val"])]
+        has = [c for c in cases if c["kind"] == "dict" and c["ty"] == t and c["op"]["op"] == "contains_key" and c["res"]["v"]
+               and any(a["op"]["op"] == "get" and a["op"]["a"][0] == c["op"]["a"][0] and a["res"].get("tag") == "Just" and is_zero(a["res"]["val"]) for a in c["obs"])]
+        if not got or not has:
+            vlib.tool_error("vacuity: dict.get / contains_key never meet a present key whose value is the zero value (%s)" % t)
+        n["dict.get -> Just zero"] = n.get("dict.get -> Just zero", 0) + len(got)
+        n["dict.contains_key of a key mapped to zero"] = n.get("dict.contains_key of a key mapped to zero", 0) + len(has)
+    return n
+
+
 def replay_cases(wd, cases, name, batch=40, env=None):
-    cf = os.path.join(wd, name + "-cases.ndjson")
-    rf = os.path.join(wd, name + "-results.ndjson")
-    vlib.write_ndjson(cf, cases)
-    vlib.harness("c18", ["replay", cf, rf, batch], env=env)
-    results = vlib.read_ndjson(rf)
-    summary = results.pop()
-    if not summary.get("summary") or len(results) != len(cases):
-        vlib.tool_error("c18 returned %d results for %d transitions" % (len(results), len(cases)))
+    # in chunks: the replayer holds a whole case file in memory (about 100 KB per transition of SyltShare), and the machine is shared
+    results, summary = [], {"summary": True, "batches": 0, "programs": 0, "rejected_batches": 0}
+    chunk = 10000
+    for n, lo in enumerate(range(0, max(len(cases), 1), chunk)):
+        part = cases[lo:lo + chunk]
+        cf = os.path.join(wd, "%s-cases%s.ndjson" % (name, "-%d" % n if n else ""))
+        rf = os.path.join(wd, "%s-results%s.ndjson" % (name, "-%d" % n if n else ""))
+        vlib.write_ndjson(cf, part)
+        vlib.harness("c18", ["replay", cf, rf, batch], env=env)
+        res = vlib.read_ndjson(rf)
+        summ = res.pop()
+        if not summ.get("summary") or len(res) != len(part):
+            vlib.tool_error("c18 returned %d results for %d transitions" % (len(res), len(part)))
+        results.extend(res)
+        for k in ("batches", "programs", "rejected_batches"):
+            summary[k] += summ[k]
     return results, summary
 
 
@@ -260,7 +344,7 @@ def judge_all(cases, results, verdicts, stats):
                                      "status": r.get("status"), "source": r.get("source")})
 
 
-def negative_control(wd, cases, results):
+def negative_control(wd, cases, results, verdicts):
     """corrupt expectations of transitions the implementation got right: each corruption must be noticed"""
     neg, want = [], []
     for c, r in zip(cases, results):
@@ -278,6 +362,40 @@ def negative_control(wd, cases, results):
                 d["obs"][gets[0]]["res"], d["obs"][gets[1]]["res"] = c["obs"][gets[1]]["res"], c["obs"][gets[0]]["res"]
                 neg.append(d)                        # two list elements swapped in the expected state
                 want.append("state")
+    # round 3: (a) a present key's answer is copied to a numerically equal, textually different key (what a runtime that keys
+    # by the NUMBER would print); (b) a `Just <zero value>` result becomes None (what a runtime that tests truthiness would print)
+    n_twin = n_zero = can_twin = can_zero = 0
+    for c, r in zip(cases, results):
+        good = r["verdict"] == "ok"
+        if c["ty"] in NUMSTR and c["kind"] in ("dict", "set") and (n_twin < 40 or can_twin < 40):
+            asks = [i for i, a in enumerate(c["obs"]) if a["op"]["op"] in ("get", "contains")]
+            yes = [i for i in asks if c["obs"][i]["res"].get("tag") == "Just" or c["obs"][i]["res"].get("v") is True]
+            twins = [i for i in asks if yes and i not in yes and number_of(c["obs"][i]["op"]["a"][0]["v"]) is not None
+                     and number_of(c["obs"][i]["op"]["a"][0]["v"]) == number_of(c["obs"][yes[0]]["op"]["a"][0]["v"])]
+            if twins:
+                can_twin += 1
+            if twins and good and n_twin < 40:
+                d = json.loads(json.dumps(c))
+                d["obs"][twins[0]]["res"] = c["obs"][yes[0]]["res"]
+                neg.append(d)
+                want.append("state")
+                n_twin += 1
+        elif c["kind"] in ("list", "dict") and c["ty"] in FALSY_LIST + FALSY_DICT and (n_zero < 40 or can_zero < 40) \
+                and c["res"].get("tag") == "Just" and is_zero(c["res"]["val"]) and c["ty"] not in ("mayb", "vmayb"):
+            can_zero += 1
+            if good and n_zero < 40:
+                d = json.loads(json.dumps(c))
+                d["res"] = {"k": "variant", "tag": "None", "val": {"k": "nil"}}
+                neg.append(d)
+                want.append("result")
+                n_zero += 1
+    if can_twin < 20 or can_zero < 20:
+        vlib.tool_error("negative control: the universe has only %d twin-key and %d zero-value transitions to corrupt" % (can_twin, can_zero))
+    # a control corrupts the expectation of a transition the implementation got RIGHT. If the implementation disagrees with the model
+    # on these very transitions there are too few of them - then the disagreement must have been reported, and it is not a tool error
+    reported = {sig.split("|")[3] for sig, _, _ in verdicts.violations}
+    if (n_twin < 20 and not reported & set(NUMSTR)) or (n_zero < 20 and not reported & set(FALSY_LIST + FALSY_DICT)):
+        vlib.tool_error("negative control: only %d twin-key and %d zero-value transitions agree with the model, yet nothing was reported for them" % (n_twin, n_zero))
     if len(neg) < 40 or "state" not in want or "result" not in want:
         vlib.tool_error("negative control: only %d corruptible transitions" % len(neg))
     res, _ = replay_cases(wd, neg, "neg")
@@ -363,7 +481,7 @@ def run(ctx):
     #    (SyltShare bounds: steps after the literal for shape list / shapes dict and set; thorough writes literals over 3 values instead of 2)
     share_env = {"SHARE_STEPS": 3, "SHARE_STEPS_DS": 4, "SHARE_REGS": 3, "SHARE_MUT": 2, "SHARE_VALS": 3 if tier == "thorough" else 2, "SHARE_LEN": 3}
     with concurrent.futures.ThreadPoolExecutor(2) as pool:
-        f1 = pool.submit(vlib.tlc, "MC_Std", wd=wd, env={"MAXLEN": 3, "BIG": 0}, timeout=900, workers=4)
+        f1 = pool.submit(vlib.tlc, "MC_Std", wd=wd, env={"MAXLEN": 3, "BIG": 0, "NSTR_SET": 2 if tier == "thorough" else 1}, timeout=900, workers=4)
         f2 = pool.submit(vlib.tlc, "MC_Share", wd=wd, env=share_env, timeout=1500, workers=4)
         r, rsh = f1.result(), f2.result()
     vlib.require_tlc_ok(r, "SyltStd container and helper models")
@@ -374,7 +492,8 @@ def run(ctx):
     for act in SHARE_ACTIONS:
         if rsh.coverage.get(act, (0, 0))[1] == 0:
             vlib.tool_error("vacuity: spec action %s never taken" % act)
-    if r.coverage.get("TransitionSane", (0, 0))[1] < r.generated - 20:
+    # (`generated` counts the initial states too: one per (kind, instantiation) = 11 list + 18 dict + 14 set + 1 helper)
+    if r.coverage.get("TransitionSane", (0, 0))[1] < r.generated - 44 - 5:
         vlib.tool_error("vacuity: TransitionSane was evaluated on %s of %d transitions" % (r.coverage.get("TransitionSane"), r.generated))
     if rsh.coverage.get("ShareSane", (0, 0))[1] < rsh.generated - 20:
         vlib.tool_error("vacuity: ShareSane was evaluated on %s of %d transitions" % (rsh.coverage.get("ShareSane"), rsh.generated))
@@ -392,6 +511,7 @@ def run(ctx):
     reentrant = [c for c in cases if c["arg"] == "reentrant"]
     if len(reentrant) < 400 or len([c for c in reentrant if c["op"]["op"] == "find" and c["res"]["tag"] == "Just"]) < 40:
         vlib.tool_error("vacuity: only %d transitions with re-entrant callbacks" % len(reentrant))
+    r3 = round3_guards(cases)
     share = collect(rsh)
     if len([c for c in share if c["op"]["op"] in ("dict.map", "set.map", "entries", "elems") and c["op"]["a"][0]["name"] in ("reget", "reself", "first", "re")]) < 200:
         vlib.tool_error("vacuity: re-entrant dict / set callbacks missing from SyltShare")
@@ -404,9 +524,9 @@ def run(ctx):
            actions=dict({a: r.coverage[a][1] for a in ACTIONS}, **{a: rsh.coverage[a][1] for a in SHARE_ACTIONS}))
     results, summary = replay_cases(wd, cases, "graph")
     judge_all(cases, results, verdicts, stats)
-    n_neg = negative_control(wd, cases, results)
+    n_neg = negative_control(wd, cases, results, verdicts)
     universes = {"graph": {"transitions": len(cases), "programs": summary["programs"], "batches": summary["batches"],
-                           "rejected_batches": summary["rejected_batches"]}}
+                           "rejected_batches": summary["rejected_batches"], "round3_axes": r3}}
     shres, shsum = replay_cases(wd, share, "share")
     judge_all(share, shres, verdicts, stats)
     n_neg += negative_control_share(wd, share)
@@ -454,7 +574,9 @@ def run(ctx):
            negative_controls_rejected=n_neg, exhaustive=True, known_findings_hit=verdicts.known_hits,
            rule="every transition of the list/dict/set models (length/keys <= 3; element types int, str, (int, int), (str, str)) "
                 "and every helper application over ints -3..3 and half-steps in [-2, 2] (div: a in -7..7, b in -3..3 without 0, floor semantics); "
-                "dicts / sets also over 12 awkward string keys (<= 1 key per dict, <= 2 per set); int lists also with re-entrant callbacks; "
+                "dicts / sets also over 12 awkward string keys (<= 1 key per dict, <= 2 per set), over 24 numeric-looking string keys (<= 1 key; six of them "
+                "with <= 2 keys per dict, <= 3 per set) and float / 0,-1 / empty-string keys; lists also of bool, float, ''/'0', unit, [int], Maybe(int), 0/-1 and "
+                "dicts with such values (<= 2 values per type); int lists also with re-entrant callbacks; "
                 "every transition of the several-register model SyltShare (r1 a list literal of length <= 2 over 2 (thorough 3) values of int / (int, int), "
                 "<= 3 registers, <= 2 mutations, <= 3 steps after the literal for lists and <= 4 for dicts and sets; all registers observed after "
                 "every step); every transition applies one library operation to a "
